@@ -166,6 +166,7 @@ func c12RunTok(job *C12Job) C12Result {
 	c := job.Case
 	g := c04GetGen(c.Gen)
 	g.setup(c.Comments, c.Comfort)
+	g.setOpt(!c.NoOpt)
 	src := c04Text(c.Segs)
 	res := C12Result{ID: job.ID, Calls: job.Calls, NW: runtime.NumCPU()}
 	func() {
